@@ -92,6 +92,21 @@ CHECKS = {
                 "asserted on trees without equal-but-distinct subtrees (memoization shares results between them).",
         "technique": SOLVER_TECH,
     },
+    "C10": {
+        "level": "model_checking",
+        "text": "Bounded symbolic model checking over the reals: for every tree of the differentiable fragment (depth <= 2 "
+                "exhaustive over 29 kinds incl. every table function, constant/variable powers, conditionals, CSEs; depth 3 "
+                "over a reduced alphabet) and every non-smoothness setting, the real differentiate() is applied w.r.t. x, y, a "
+                "non-occurring variable and a subscript in one history; its output is evaluated by the real evaluator at a "
+                "symbolic point and z3 (NRA + uninterpreted elementary functions constrained by ground instances of their "
+                "identities) proves per path that it equals a forward-mode dual-number derivative written in the harness. "
+                "Refusal clauses (non-smooth / unknown functions) are path assertions.",
+        "design_ref": "DESIGN.md §4 C10",
+        "note": "Trusted: the dual-number rules in pv/props/c10.py, the evaluator (C02), z3. Reals stand in for floats; points "
+                "of non-differentiability are excluded. A sat model is replayed numerically with the math module and a central "
+                "finite difference; a model that only exists for the uninterpreted functions is reported inconclusive.",
+        "technique": SOLVER_TECH + "; NRA with uninterpreted elementary functions",
+    },
 }
 
 _PENDING = "check not built yet in this session (the design in DESIGN.md applies; will be claimed once its harness exists)"
